@@ -16,7 +16,9 @@ A_TOK = ['\\begin{e}', '\\end{e}', '\\begin{f}', '\\end{f}', '\\begin{verbatim}'
          ' ', 'a', '.', '(', '|', '\\left', '\\left(', '\\big.', '\\cup', '\\textbf{', '\\label{', '\\section{',
          '\\def\\x{', '\\newcommand', '\\begin', '\\end',
          # environment names that are not a single word
-         '\\begin{ }', '\\end{ }', '\\begin{\\a }', '\\end{\\a }', '\r', '\\section{a}[b]', '\\def{x}{', '\\begin{document}', '\\end{document}', '{e}']
+         '\\begin{ }', '\\end{ }', '\\begin{\\a }', '\\end{\\a }', '\r', '\\section{a}[b]', '\\def{x}{', '\\begin{document}', '\\end{document}', '{e}',
+         # a comment directly behind a command name
+         '\\end%c\n', '\\x%c\n']
 A_TOK_CORE = ['\\begin{e}', '\\end{e}', '\\end{f}', '\\begin{verbatim}', '\\end{verbatim}', '\\begin{equation}',
               '\\begin{itemize}', '\\end{itemize}', '\\item', '\\x', '\\x{', '\\x[', '{', '}', '[', ']', '$', '$$',
               '\\(', '\\]', '\\\\', '%', '\n', ' ', 'a', '\\left(', '\\textbf{', '\\newcommand', '\\begin', '\\end', '\r',
